@@ -52,7 +52,7 @@ Has(e, t) == \E cell \in memo : cell.e = e /\ cell.t = t
 \* an evaluation only computes (and records with the current versions) what is not cached yet
 Filled(e, t) == memo \cup {[e |-> p[1], t |-> p[2], seen |-> Cur(p[1])] : p \in {q \in Reach(e, t) : ~Has(q[1], q[2])}}
 
-Log1(rec) == hist' = Append(hist, rec @@ [defs |-> [c |-> defs'.c, iv |-> defs'.iv, fv |-> defs'.fv, yv |-> defs'.yv, w |-> defs'.w]])
+Log1(rec) == hist' = IF L = 0 THEN hist ELSE Append(hist, rec @@ [defs |-> [c |-> defs'.c, iv |-> defs'.iv, fv |-> defs'.fv, yv |-> defs'.yv, w |-> defs'.w]])
 Bump(e) == [defs.ver EXCEPT ![e] = @ + 1]
 Cleared == IF "NoReset" \in Dev THEN memo ELSE {}
 
